@@ -30,6 +30,11 @@
 #include <unistd.h>
 #include <fcntl.h>
 #include <fnmatch.h>
+#include <poll.h>
+#include <signal.h>
+#include <sys/resource.h>
+#include <sys/wait.h>
+#include <ctime>
 
 #include "geoslib_io.h"
 
@@ -483,7 +488,7 @@ template<class C, class RunF> void account(const C&, const Ctx& ctx, const std::
       if ((long)(h % (uint64_t)s.seenForSample) < 5) s.samples[3 + (size_t)(h % 5)] = text;
     }
   }
-  if ((s.evaluations & 1023) == 0) writeStats();
+  if (s.evaluations < 64 || (s.evaluations & 255) == 0) writeStats(); // (workers stopped by the wall-clock cap keep what they explored)
 }
 
 template<class C, class GenF, class RunF> void registerSub(const std::string& name, GenF gen, RunF run)
@@ -615,6 +620,107 @@ inline int harnessMain(int argc, char** argv)
     }
   diag("unknown sub-property '" + sub + "' (use --list)");
   return 2;
+}
+
+
+inline std::string fmt(const char* f, ...);
+// ---------------------------------------------------------------- forked execution -----
+// Runs the oracle of one case in a forked child under a CPU limit and a wall-clock limit, and brings the
+// context (labels, flags, failures) back through a pipe.  For calls that may not terminate or may kill the
+// process (recorded findings of that kind must not stop the search): the parent survives and keys the outcome
+//   <keyPrefix>:no-termination   the child exceeded cpuSeconds of CPU time (or wallSeconds of wall clock)
+//   <keyPrefix>:crash            the child died (sanitizer report, signal)
+struct CtxWire
+{
+  std::vector<std::string> labels, fkeys, fmsgs;
+  int nt = 0, inconc = 0;
+  std::string sig;
+  template<class A> void io(A& a) { a("labels", labels)("fkeys", fkeys)("fmsgs", fmsgs)("nt", nt)("inconc", inconc)("sig", sig); }
+};
+template<class C, class RunF> void forkedRun(const C& c, Ctx& ctx, RunF run, const std::string& keyPrefix, int cpuSeconds, int wallSeconds)
+{
+  int fd[2];
+  if (pipe(fd) != 0) { run(c, ctx); return; }
+  fflush(nullptr);
+  pid_t pid = fork();
+  if (pid == 0)
+  {
+    close(fd[0]);
+    struct rlimit rl;
+    rl.rlim_cur = (rlim_t)cpuSeconds;
+    rl.rlim_max = (rlim_t)cpuSeconds + 5;
+    setrlimit(RLIMIT_CPU, &rl);
+    stats().outPrefix.clear(); // the child writes no stats / current files
+    Ctx cc;
+    try { run(c, cc); }
+    catch (const LibExit&) { cc.fail("lib-exit", "the library called its exit function (messageAbort)"); }
+    catch (const std::exception& e)
+    {
+      std::string w = e.what();
+      std::string key = (w.find("Eigen assertion") != std::string::npos) ? "eigen-assert" : "exception";
+      for (auto it = cc.labels.rbegin(); it != cc.labels.rend(); ++it)
+        if (it->rfind("at:", 0) == 0) { key += ":" + it->substr(3); break; }
+      cc.fail(key, std::string("uncaught exception: ") + w);
+    }
+    catch (...) { cc.fail("exception:unknown", "unknown exception"); }
+    CtxWire wre;
+    wre.labels = cc.labels;
+    for (auto& f : cc.fails) { wre.fkeys.push_back(f.key); wre.fmsgs.push_back(f.msg); }
+    wre.nt = cc.nt ? 1 : 0;
+    wre.inconc = cc.inconc ? 1 : 0;
+    wre.sig = std::to_string(cc.sig);
+    std::string t = toText(wre);
+    size_t off = 0;
+    while (off < t.size())
+    {
+      ssize_t wr = write(fd[1], t.data() + off, t.size() - off);
+      if (wr <= 0) break;
+      off += (size_t)wr;
+    }
+    close(fd[1]);
+    _exit(0);
+  }
+  close(fd[1]);
+  std::string got;
+  bool wallOut = false;
+  {
+    time_t t0 = time(nullptr); // wall clock only bounds a hung child; it never decides a property verdict by itself
+    char buf[4096];
+    for (;;)
+    {
+      struct pollfd pf;
+      pf.fd = fd[0];
+      pf.events = POLLIN;
+      int pr = poll(&pf, 1, 1000);
+      if (pr > 0)
+      {
+        ssize_t rd = read(fd[0], buf, sizeof buf);
+        if (rd <= 0) break;
+        got.append(buf, (size_t)rd);
+      }
+      else if (time(nullptr) - t0 > wallSeconds) { wallOut = true; kill(pid, SIGKILL); break; }
+    }
+  }
+  close(fd[0]);
+  int st = 0;
+  waitpid(pid, &st, 0);
+  CtxWire wre;
+  if (!got.empty() && fromText(got, wre) && WIFEXITED(st) && WEXITSTATUS(st) == 0)
+  {
+    for (auto& l : wre.labels) ctx.labels.push_back(l);
+    for (size_t i = 0; i < wre.fkeys.size(); i++) ctx.fail(wre.fkeys[i], wre.fmsgs[i]);
+    ctx.nt = ctx.nt || wre.nt;
+    ctx.inconc = ctx.inconc || wre.inconc;
+    ctx.sig = strtoull(wre.sig.c_str(), nullptr, 10);
+    return;
+  }
+  if (wallOut) { ctx.inconclusive("child-hung-wallclock"); return; }
+  if (WIFSIGNALED(st) && (WTERMSIG(st) == SIGXCPU || WTERMSIG(st) == SIGKILL))
+  {
+    ctx.fail(keyPrefix + ":no-termination", fmt("still running after %d s of CPU time", cpuSeconds));
+    return;
+  }
+  ctx.fail(keyPrefix + ":crash", fmt("the child process died (wait status 0x%x)", st));
 }
 
 // ---------------------------------------------------------------- numeric helpers ------
